@@ -567,14 +567,115 @@ def extract_parsing(oag: Path) -> str:
 
 
 
-def extract_all(repo: Path) -> str:
+# ---------------------------------------------------------------------------------------------
+# writable_database.py: _add_schedule (instance arithmetic), importer state, od_pair key
+# ---------------------------------------------------------------------------------------------
+
+def cstr(x: str) -> str:
+    x = x.replace('\n', ' | ')
+    if any(ord(c) < 32 or ord(c) > 126 for c in x):
+        raise Untranslatable(f'non-printable character in {x!r}')
+    return '"' + x.replace('"', '""') + '"%string'
+
+
+def extract_add_schedule(wdb: Path) -> str:
+    """The statements of _add_schedule, in order, as data: the inclusive date range, the weekday test, the two
+    localisations (wall-clock time built first, then localised), the arrival day offset, the drop test, the UTC day,
+    the stored tuple, and the returned count."""
+    where = 'writable_database.py:_add_schedule'
+    fn = find_function(_parse(wdb), '_add_schedule', cls='WritableDatabase')
+    body = strip_doc(fn.body)
+    if len(body) != 4:
+        raise Untranslatable(f'{where}: expected data = [], the date loop, the bulk insert, the return; got {len(body)} statements')
+    init, loop, ins, ret = body
+    if ast.unparse(init) != 'data = []':
+        raise Untranslatable(f'{where}: data initialisation')
+    if not (isinstance(loop, ast.For) and not loop.orelse and ast.unparse(loop.target) == 'flight_date'):
+        raise Untranslatable(f'{where}: loop over flight_date')
+    lb = [x for x in loop.body if not (isinstance(x, ast.Expr) and isinstance(x.value, ast.Constant))]
+    if len(lb) != 8:
+        raise Untranslatable(f'{where}: loop body has {len(lb)} statements (expected weekday test, two localisations, two '
+                             'timestamps, drop test, day, append)')
+    wk, dep, arr, dts, ats, drop, day, app = lb
+    if not (isinstance(wk, ast.If) and [ast.unparse(x) for x in wk.body] == ['continue'] and not wk.orelse):
+        raise Untranslatable(f'{where}: weekday test must `continue`')
+    if not (isinstance(drop, ast.If) and not drop.orelse and len(drop.body) == 2
+            and ast.unparse(drop.body[0]).startswith('self._warn(Warning.Type.TIME_MISORDERING, line,')
+            and ast.unparse(drop.body[1]) == 'continue'):
+        raise Untranslatable(f'{where}: drop test must warn TIME_MISORDERING and `continue`')
+    if not (isinstance(ins, ast.If) and not ins.orelse and len(ins.body) == 1):
+        raise Untranslatable(f'{where}: bulk insert block')
+    insert_sql = ' '.join(ins.body[0].value.args[0].value.split()) if (
+        isinstance(ins.body[0], ast.Expr) and isinstance(ins.body[0].value, ast.Call)
+        and ast.unparse(ins.body[0].value.func) == 'cur.executemany' and len(ins.body[0].value.args) == 2
+        and isinstance(ins.body[0].value.args[0], ast.Constant) and ast.unparse(ins.body[0].value.args[1]) == 'data') else None
+    if insert_sql is None:
+        raise Untranslatable(f'{where}: cur.executemany(<sql>, data)')
+    names = [a.arg for a in fn.args.args]
+    items = [('sched_params', ', '.join(names)), ('sched_range', ast.unparse(loop.iter)),
+             ('sched_weekday_skip', ast.unparse(wk.test)), ('sched_dep_local', ast.unparse(dep)),
+             ('sched_arr_local', ast.unparse(arr)), ('sched_dep_utc', ast.unparse(dts)), ('sched_arr_utc', ast.unparse(ats)),
+             ('sched_drop_test', ast.unparse(drop.test)), ('sched_day', ast.unparse(day)), ('sched_append', ast.unparse(app)),
+             ('sched_insert_guard', ast.unparse(ins.test)), ('sched_insert_sql', insert_sql),
+             ('sched_return', ast.unparse(ret))]
+    mod = _parse(wdb)
+    epoch = ast.unparse(_module_assign(mod, 'EPOCH'))
+    items.append(('sched_epoch', epoch))
+    return ''.join(f'Definition {k} : string := {cstr(v)}.\n' for k, v in items)
+
+
+def extract_importer_state(wdb: Path) -> str:
+    """Instance state of WritableDatabase (attributes bound in __init__), the state _distance_check consults, and the
+    direction-independent route key of _add_flight."""
+    mod = _parse(wdb)
+    init = find_function(mod, '__init__', cls='WritableDatabase')
+    attrs = []
+    for n in ast.walk(init):
+        tgt = None
+        if isinstance(n, ast.Assign) and len(n.targets) == 1:
+            tgt = n.targets[0]
+        elif isinstance(n, ast.AnnAssign):
+            tgt = n.target
+        if isinstance(tgt, ast.Attribute) and isinstance(tgt.value, ast.Name) and tgt.value.id == 'self':
+            attrs.append(tgt.attr)
+    dc = find_function(mod, '_distance_check', cls='WritableDatabase')
+    used = sorted({n.attr for n in ast.walk(dc) if isinstance(n, ast.Attribute) and isinstance(n.value, ast.Name)
+                   and n.value.id == 'self'})
+    glob = sorted({n.id for st in dc.body for n in ast.walk(st) if isinstance(n, ast.Name) and isinstance(n.ctx, ast.Load)}
+                  - {a.arg for a in dc.args.args} - {'abs'}
+                  - {t.id for n in ast.walk(dc) if isinstance(n, ast.Assign) for t in n.targets if isinstance(t, ast.Name)})
+    if used != ['_warn']:
+        raise Untranslatable(f'writable_database.py:_distance_check consults instance state besides _warn: {used}')
+    af = find_function(mod, '_add_flight', cls='WritableDatabase')
+    od = [ast.unparse(n.value) for n in ast.walk(af) if isinstance(n, ast.Assign) and ast.unparse(n.targets[0]) == 'od_pair']
+    if len(od) != 1:
+        raise Untranslatable('writable_database.py:_add_flight: od_pair assignment')
+    sl = lambda xs: '[' + '; '.join(cstr(x) for x in xs) + ']'  # noqa: E731
+    return (f'Definition importer_state : list string := {sl(sorted(attrs))}.\n'
+            f'Definition distance_check_names : list string := {sl(glob)}.\n'
+            f'Definition od_pair_expr : string := {cstr(od[0])}.\n')
+
+
+
+HEAD = ('(* generated by translator/c13_extract.py from the current working tree — do not edit *)\n'
+        'From Coq Require Import ZArith List String Bool Ascii.\n'
+        'From AV Require Import lib.Dates model.C13_Model model.C13_Parse.\n'
+        'Import ListNotations.\nOpen Scope Z_scope.\n\n')
+
+
+def extract_parts(repo: Path):
+    """[(obligation name, thunk)] — each source function under its own name."""
     src = Path(repo) / 'src' / 'AEIC'
-    head = ('(* generated by translator/c13_extract.py from the current working tree — do not edit *)\n'
-            'From Coq Require Import ZArith List String Bool Ascii.\n'
-            'From AV Require Import lib.Dates model.C13_Model model.C13_Parse.\n'
-            'Import ListNotations.\nOpen Scope Z_scope.\n\n')
-    return (head + extract_row_valid(src / 'missions/oag.py') + '\n'
-            + extract_add(src / 'missions/oag.py', src / 'units.py') + '\n'
-            + extract_distance_check(src / 'missions/writable_database.py') + '\n'
-            + extract_dow(src / 'missions/writable_database.py', src / 'types/time.py') + '\n'
-            + extract_parsing(src / 'missions/oag.py'))
+    oag, wdb = src / 'missions/oag.py', src / 'missions/writable_database.py'
+    return [('extract:oag.py:CSVEntry.is_row_valid+EXCLUDE_EQUIPMENT', lambda: extract_row_valid(oag) + '\n'),
+            ('extract:oag.py:OAGDatabase.add+units.py', lambda: extract_add(oag, src / 'units.py') + '\n'),
+            ('extract:writable_database.py:_distance_check', lambda: extract_distance_check(wdb) + '\n'),
+            ('extract:writable_database.py:_make_dow_mask+types/time.py:DayOfWeek',
+             lambda: extract_dow(wdb, src / 'types/time.py') + '\n'),
+            ('extract:oag.py:CSVEntry.from_csv_row', lambda: extract_parsing(oag) + '\n'),
+            ('extract:writable_database.py:_add_schedule', lambda: extract_add_schedule(wdb) + '\n'),
+            ('extract:writable_database.py:importer state+_add_flight od_pair', lambda: extract_importer_state(wdb))]
+
+
+def extract_all(repo: Path) -> str:
+    return HEAD + ''.join(fn() for _, fn in extract_parts(repo))
